@@ -40,6 +40,10 @@ class Boom(Exception):
     pass
 
 
+class Stop(BaseException):
+    pass
+
+
 def run_pool(max_size, progs, plan, opcodes=False, pooled=False, yield_points=False):
     """-> (status, outcome, problems, steps, trace)"""
     import pymemcache.pool as pool_mod
@@ -62,6 +66,8 @@ def run_pool(max_size, progs, plan, opcodes=False, pooled=False, yield_points=Fa
             inuse.discard(self.id)
             if key == b"boom":
                 raise Boom()
+            if key == b"stop":
+                raise Stop()        # an interruption that is not an Exception (gevent.Timeout, GreenletExit, KeyboardInterrupt)
             return b"v"
 
         def quit(self):
@@ -96,11 +102,11 @@ def run_pool(max_size, progs, plan, opcodes=False, pooled=False, yield_points=Fa
                             finally:
                                 pool.destroy(o)
                     elif pooled:
-                        pc.get(b"boom" if a == 1 else b"k")
+                        pc.get({1: b"boom", 4: b"stop"}.get(a, b"k"))
                     else:
                         with pool.get_and_release(destroy_on_fail=True) as o:
-                            o.get(b"boom" if a == 1 else b"k")
-                except Boom:
+                            o.get({1: b"boom", 4: b"stop"}.get(a, b"k"))
+                except (Boom, Stop):
                     pass
                 except RuntimeError as e:
                     if "Too many objects" in str(e):
@@ -135,8 +141,8 @@ def run_pool(max_size, progs, plan, opcodes=False, pooled=False, yield_points=Fa
 def model_outcomes(ctx, max_size, progs, memo={}):
     key = (max_size, repr(progs))
     if key not in memo:
-        # quit (3) = use, then destroy: for the pool exactly what use-and-fail (1) does
-        r = ctx.driver.call(1, max_size, [[1 if a == 3 else a for a in p] for p in progs], 80)
+        # quit (3) = use, then destroy; interrupted use (4): for the pool exactly what use-and-fail (1) does
+        r = ctx.driver.call(1, max_size, [[1 if a in (3, 4) else a for a in p] for p in progs], 80)
         if r[0] != "ok":
             raise RuntimeError("model error %r" % (r,))
         memo[key] = {(tuple(f), tuple(sorted(c)), tuple(e), n, tuple(u)) for f, c, e, n, u in r[1]}
@@ -145,7 +151,7 @@ def model_outcomes(ctx, max_size, progs, memo={}):
 
 SCENARIOS = [(1, [[0], [0]]), (1, [[0], [1]]), (1, [[1], [1]]), (2, [[0, 0], [0]]), (2, [[0], [1], [0]]), (1, [[0], [2]]), (2, [[1], [2]]), (2, [[0, 2], [0]]),
              (1, [[0, 0], [0, 1]]), (2, [[0], [0], [0]]), (2, [[1, 0], [2, 0]]), (3, [[0], [0], [1]]), (1, [[0, 1, 0], [2]]), (2, [[0, 0, 0], [1, 1]]),
-             (1, [[3], [0]]), (2, [[3, 0], [0]]), (2, [[0], [3], [0]])]
+             (1, [[3], [0]]), (2, [[3, 0], [0]]), (2, [[0], [3], [0]]), (1, [[4], [0]]), (2, [[4, 0], [0]]), (2, [[0], [4], [1]])]
 
 
 def plans_for(n, bound, rng, limit):
